@@ -10,6 +10,10 @@ import hashlib
 # ------------------------------------------------------------------ types
 
 
+import os as _os
+# generator v2 = C++ programs + reference cycles through several records (switched on per default once soaked)
+GEN2 = _os.environ.get("VERIF_CXX", "0") == "1"
+
 class Type(object):
     named = False
 
@@ -497,6 +501,9 @@ def render(prog):
     pub, priv = [], []
     local = {i: [] for i in range(prog.ntus)}
     for t in prog.types:
+        if isinstance(t, Record) and getattr(t, "fwd_early", False):
+            pub.append(render_fwd(t, lang))
+    for t in prog.types:
         if isinstance(t, Record) and t.opaque:
             pub.append(render_fwd(t, lang))
             continue
@@ -652,6 +659,7 @@ class GenOpts(object):
         self.top_cv_params = False
         self.flex_array = True
         self.cxx_classes = True
+        self.mutual = GEN2          # reference cycles through several records (back edges to records defined later)
         self.__dict__.update(kw)
 
 
@@ -941,6 +949,8 @@ class Gen(object):
                 self.gen_enum()
             else:
                 self.gen_typedef()
+        if o.recursive and o.mutual:
+            self.add_back_edges()
         for i in range(o.nfuncs):
             self.gen_function()
         for i in range(o.nvars):
@@ -967,6 +977,23 @@ class Gen(object):
             self.assign_visibility_of_types()
         return self.p
 
+    def add_back_edges(self):
+        """Pointer members from a record to a record defined later: reference cycles of length >= 2, nested cycles."""
+        r = self.r
+        recs = [t for t in self.p.types if isinstance(t, Record) and t.name and not t.opaque]
+        if len(recs) < 2:
+            return
+        for _ in range(r.choice([0, 1, 1, 2, 3, 4])):
+            i = r.randrange(len(recs) - 1)
+            a, b = recs[i], recs[r.randrange(i + 1, len(recs))]
+            hi = len(a.fields) - (1 if getattr(a, "flex", False) else 0)
+            pos = r.randint(0, hi)
+            f = Field(self.name("m"), Pointer(b))
+            if a.fields:
+                f.access = a.fields[pos - 1 if pos else 0].access
+            a.fields.insert(pos, f)
+            b.fwd_early = True
+
     def assign_visibility_of_types(self):
         """Split types over public.h / private.h / TU-local, keeping every definition visible where used:
         a type may be private/local only if every *complete* use of it is from types that are equally hidden
@@ -990,6 +1017,11 @@ class Gen(object):
                         else:
                             mark(f.type)
                 walk(t)
+                for b in t.bases:
+                    mark(b[0])
+                for m in t.methods:
+                    for q in m.ftype.params + [m.ftype.ret]:
+                        mark(q)
             elif isinstance(t, Typedef):
                 mark(t.to)
         for f in p.functions:
@@ -1013,6 +1045,5 @@ def generate(rng, opts=None, nonce=None):
     return g.run()
 
 
-import os as _os
-if _os.environ.get("VERIF_CXX", "0") == "1":     # C++ side of the generator (switched on per default once soaked)
+if GEN2:     # C++ side of the generator
     CXX_READY = True
